@@ -355,7 +355,9 @@ TECHNIQUE = "Coq proof (loop invariants of the minimisation over a proved-correc
 LEVEL_TEXT = (
     "Theorems C11_* (Props/C11.v) prove for the model of ForestRuleExtractor._minimize, instantiated with the "
     "table-method productivity test whose meaning is given by C03: the extracted keys are inserted keys of the "
-    "pumping sub-universe; the start class pumps w.r.t. the extracted keys alone; removing any single extracted key "
+    "pumping sub-universe; the start class pumps w.r.t. the extracted keys alone, and so does EVERY class mentioned "
+    "by an extracted key, as parent or child (C11_all_classes_pump: a key mentioning a class that does not pump could be "
+    "dropped, contradicting minimality; closedness is its corollary); removing any single extracted key "
     "makes it stop pumping (minimal); no REVERSE key is used when the other buckets suffice; and the extracted keys "
     "have pairwise distinct left-hand sides (C11_one_rule_per_class: the assertion in check() cannot fail). The last "
     "one follows from C11_minimal_one_rule_per_class, proved for ANY key list (Forest/Positional.v, memoryless "
